@@ -14,7 +14,7 @@ from ..common import pick, hx, key_family, sk, unhx
 
 ID = "C20"
 LEVEL = "fault_enumeration"
-TECHNIQUE = "fault injection at every byte offset of saved files + 'must raise' oracle on the real loaders"
+TECHNIQUE = "fault injection at every byte offset of saved files + 'must raise' oracle on the real loaders; tables whose bytes spell complete and partial inner archives"
 RULE = ("case = one file written by save() of a sketch reached by a random history (class, shape, history); every "
         "strict prefix of the file is handed to every applicable loader; non-trivial = the sketch was non-empty "
         "and the full file loaded back to the saved state; distinct = by (config, history) digest; variants: saved over an older larger "
